@@ -13,7 +13,7 @@ import valgen
 import xv
 from xv import log
 
-CORPUS_VERSION = "22"
+CORPUS_VERSION = "23"
 
 BOUNDARY = [0, 1, 2, 3, 0xffff, 0x10000, 0x7fffffff, 0x80000000, 0xfffffffe, 0xffffffff]
 
@@ -149,7 +149,7 @@ def quick_specs(seed, tier):
         # enum members as labels of an INTEGER discriminant, mixed with literals and constants in
         # fall-through groups (the emitted arm is a guard `c if c == E::M as u32`)
         "enum ftype { F_REG = 1, F_DIR = 2, F_LNK = 5, F_BIG = 0x7fffffff };\nconst ZERO = 0;\n"
-        "union fmix switch (unsigned int k) { case 0: case F_REG: unsigned int size; case F_DIR: case 7: hyper h; case F_LNK: void; case F_BIG: case 9: void; default: void; };\n"
+        "union fmix switch (unsigned int k) { case 0: case F_REG: unsigned int size; case 7: case F_DIR: hyper h; case F_LNK: void; case 9: case F_BIG: void; default: void; };\n"
         "union fmix2 switch (int k) { case ZERO: case F_DIR: int a; case F_REG: void; };\n"
         "struct fholder { fmix a<>; fmix2 b; };\n",
         "enum gtype { G_A = 1, G_B = 4 };\n"
